@@ -39,12 +39,12 @@ FLOORS = {"C13.R1": 8, "C13.R2": 2, "C13.R3": 1, "C13.R4": 4, "C13.R5": 2, "C13.
 def run(chk):
     prog = chk.prog
     cf = prog.cls(f"{CDX}:CDXMLFile")
-    r1_attributes(chk, cf)
-    r2_one_per_node(chk, cf)
-    r3_wedge_table(chk, cf)
-    r4_odd_in_sign(chk)
-    r5_determinism(chk, cf)
-    r6_bonds_through_api(chk, cf)
+    chk.call(r1_attributes, chk, cf)
+    chk.call(r2_one_per_node, chk, cf)
+    chk.call(r3_wedge_table, chk, cf)
+    chk.call(r4_odd_in_sign, chk)
+    chk.call(r5_determinism, chk, cf)
+    chk.call(r6_bonds_through_api, chk, cf)
 
 
 # ---------------------------------------------------------------------------
